@@ -439,9 +439,17 @@ Lemma unwind_end_ws : forall F st, fin_ok (c_fin F) = true ->
   ws (unwind F (end_session F st)) = map (ended_w F) (ws st).
 Proof.
   intros F st Hf. unfold end_session.
-  destruct (fin_ok_spec (c_fin F) (ss st) Hf) as (Hc & _).
-  destruct (run_fin (c_fin F) (ss st)) as [[s' c] w']. simpl in Hc; subst c. unfold unwind; simpl.
+  destruct (fin_ok_spec (c_fin F) (giveback_pre F (ss st)) Hf) as (Hc & _).
+  destruct (run_fin (c_fin F) (giveback_pre F (ss st))) as [[s' c] w']. simpl in Hc; subst c. unfold unwind; simpl.
   unfold map_cancel. rewrite map_map. reflexivity.
+Qed.
+
+(* outside the listener start-up the give-back of the port on cancellation plays no role *)
+Lemma giveback_pre_id : forall F s, sess_hole_free s = true -> giveback_pre F s = s.
+Proof.
+  intros F s H. unfold giveback_pre. destruct (c_giveback F); [|reflexivity].
+  unfold sess_hole_free in H. destruct (lst s); try reflexivity;
+    rewrite !andb_false_r in H; discriminate H.
 Qed.
 
 Lemma sound12_inv : forall F, sound12 F = true -> workers_ok F = true /\ fin_ok (c_fin F) = true.
@@ -460,7 +468,8 @@ Proof.
   destruct (good_list F _ Hg) as (G1 & G2 & G3).
   unfold ledger. rewrite G1, G2, G3. clear G1 G2 G3 Hg Hws.
   destruct (hole_free_inv F st Hh) as [Hsf _].
-  unfold end_session. destruct (fin_ok_spec (c_fin F) (ss st) Hf) as (_ & Hw & Hp & Hrel).
+  unfold end_session. rewrite (giveback_pre_id F (ss st) Hsf).
+  destruct (fin_ok_spec (c_fin F) (ss st) Hf) as (_ & Hw & Hp & Hrel).
   destruct (Hrel Hsf) as [Hr Hhf]. clear Hrel.
   destruct (run_fin (c_fin F) (ss st)) as [[s' c] w']. simpl in Hw, Hp, Hr, Hhf |- *.
   destruct s' as [al ct tb sl us po l d ax pl orp lk]. unfold sess_released, sess_hole_free in *. simpl in *.
@@ -604,7 +613,7 @@ Qed.
 Lemma end_session_ok : forall F st, state_ok F st = true -> state_ok F (end_session F st) = true.
 Proof.
   unfold state_ok, end_session; intros F st H.
-  destruct (run_fin (c_fin F) (ss st)) as [[s c] w]; simpl. destruct c; [|assumption].
+  destruct (run_fin (c_fin F) (giveback_pre F (ss st))) as [[s c] w]; simpl. destruct c; [|assumption].
   apply forallb_map_keep; [apply wok_cancel | assumption].
 Qed.
 
@@ -1055,3 +1064,18 @@ Proof.
   intros l H. destruct l as [|[] [|[] [|? ?]]]; simpl in H; try discriminate; auto.
 Qed.
 
+
+(* ------------------------------------------------------------------ forms used by Props/C12.v, Props/C14.v *)
+Lemma unwinding_terminates_reachable : forall F st w,
+  reachable F st -> In w (ws st) -> w_leak w = false -> hole F w = false ->
+  terminal (w_stage (fst (wrun F (List.length (wf_ctx (wfof F w)) + 1) (fst (cancel F w))))) = true.
+Proof.
+  intros F st w Hr Hin. apply unwinding_terminates.
+  pose proof (reachable_ok F st Hr) as Hk. unfold state_ok in Hk. rewrite forallb_forall in Hk. exact (Hk w Hin).
+Qed.
+
+Lemma sound14_abor_known : forall F, sound14 F = true -> c_abor F <> AbUnknown.
+Proof.
+  unfold sound14; intros F H. apply andb_prop in H; destruct H as [_ H].
+  destruct (c_abor F); try discriminate; intro X; discriminate X.
+Qed.
